@@ -49,7 +49,7 @@ import (
 func init() {
 	// n counts SCRIPTS (the fixed corpus included); every script yields 3 cases (stub, dagre, ELK) per board
 	// plus one CDirect case when its root is a flat grid / a sequence diagram.
-	register(&Prop{ID: "C18", Module: "V.C18.Check", Gen: c18Gen, Quick: 50, Thorough: 400, Shard: 20})
+	register(&Prop{ID: "C18", Module: "V.C18.Check", Gen: c18Gen, Quick: 42, Thorough: 400, Shard: 20})
 }
 
 const c18FreshBase = 100000
